@@ -397,6 +397,7 @@ REP = {
     "wide5": [[], [], [0], [1], [2, 3]],
     # queue stress: L long, A fails, B1/B2 (blocked by A) and C (blocked by B1) flagged, X/Y ordinary
     "cancelfan7": [[], [], [1], [1], [2], [], []],
+    "fan5": [[], [0], [0], [0], [0]],
     "indep3": [[], [], []],
     "indep4": [[], [], [], []],
 }
